@@ -236,6 +236,7 @@ class Ctx:
 
     # ---------- correspondence --------------------------------------------------------------
     def run_harness(self, binary, args, trace, timeout=3000):
+        if self.tier == "quick": timeout = min(timeout, 900)     # a tree that makes the SDK hang must not stall the quick tier
         with open(trace, "w") as f:
             try:
                 p = subprocess.run([binary] + args, stdout=f, stderr=subprocess.PIPE, env=self.env, timeout=timeout, text=True)
